@@ -102,15 +102,11 @@ def rq_operator_names(text, with_arity=False):
 
 
 # input predicates of the OPEN findings only (the predicates of fixed findings were removed with the fix: nothing can
-# be classified as F7 F15 F29 N1 N2 N5 N6 N7 N8 N9 N10 N11 N12 N13 N14 N15 N17 N18 F9 H1 H2 any more)
+# be classified as F7 F15 F29 N1 N2 N5 N6 N7 N8 N9 N10 N11 N12 N13 N14 N15 N16 N17 N18 F9 H1 H2 any more)
 PRED = {
     # C12-N3 as a precondition (c12_rq_staged_precondition): a structurally mutated RQ that does NOT satisfy rq_wf && rq_agg_ok
     "mutated-rq-json": lambda c: (c["entry"] == "json_rq" and c.get("family", "").startswith("json:") and c.get("family") not in ("json:orig", "json:int:lit")
                                   and rq_doc_wf(c["src"]) is not True),
-    # C12-N16: an RQ (from JSON) with an operator whose name does not start with `std.`
-    "rq-operator-without-std-prefix": lambda c: c["entry"] == "json_rq" and (
-        any(not n.startswith("std.") for n in rq_operator_names(c["src"]))
-        or any(n in OP_ARITIES and k not in OP_ARITIES[n] for n, k in rq_operator_names(c["src"], with_arity=True))),
     "mutated-pl-json": lambda c: c["entry"] == "json_pl" and c.get("family", "").startswith("json:") and c.get("family") not in ("json:orig", "json:int:lit"),
     "deep-or-long": lambda c: True,   # refined by thresholds below
     # C12-H3: at least 10 named arguments whose value opens a parenthesis (`x:(`), nested
